@@ -102,15 +102,16 @@ Definition k_stream (tr : list event) : bool :=
   match mrun MOut tr with Some MOut => true | _ => false end.
 
 (** * K3: silence.  The goroutine's letters occur only while the name is
-      managed according to the markers: after [Add] returned successfully and
-      before [Remove] returned successfully. *)
+      managed according to the markers: after an [Add] was called and before
+      [Remove] returned successfully (the retryMonitor goroutine of a
+      successful Add may run before the caller sees Add return). *)
 
 Fixpoint k_silence (man : bool) (tr : list event) : bool :=
   match tr with
   | [] => true
   | e :: tr' =>
       match e with
-      | EAdd true => k_silence true tr'
+      | EAddCalled => k_silence true tr'
       | ERemoveReturned true => k_silence false tr'
       | _ => (is_marker e || man) && k_silence man tr'
       end
